@@ -58,6 +58,195 @@ def _strip_cast(t):
     return t
 
 
+def _decode_table(crate, src):
+    """the offset table behind the source of the chain: a literal array of pairs or a named constant"""
+    if isinstance(src, tuple) and src and src[0] == "agg" and src[1] == "array":
+        try:
+            return [(t[2][0][1], t[2][1][1]) for t in src[2]]
+        except Exception:  # noqa: BLE001
+            return None
+    if isinstance(src, tuple) and src and src[0] in ("assoc", "cst"):
+        nm_ = str(src[1]).split("::")[-1]
+        for kc in crate.consts:
+            if kc["name"] == nm_ and kc.get("bytes"):
+                bs = kc["bytes"]
+                vals = [int.from_bytes(bytes(x & 0xFF for x in bs[q:q + 8]), "little", signed=True) for q in range(0, len(bs), 8)]
+                return [(vals[q], vals[q + 1]) for q in range(0, len(vals) - 1, 2)]
+    return None
+
+
+def _neighbour_pipeline(crate, b):
+    """Evaluate the lazy iterator chain a neighbours function returns on a symbolic offset (dx, dy): the
+    chain is followed from the returned value back to its source through map / filter / filter_map stages (in
+    any order and number), each closure's body is run on the element produced so far.  Returns
+    (table, [(conditions, yielded element)], description) or None when the chain has another shape."""
+    from ..absint import NONE
+
+    helpers = [m for m in crate.bodies if not m.is_closure and m.kind in ("Fn", "AssocFn") and m.vis != "pub" and not util.self_recursive(m)]
+    I = util.analyser(helpers, features=("comb", "fncall"))(b)
+    if len(I.final_states) != 1:
+        return None
+    st = I.final_states[0]
+    evs = [e for e in st.event_list() if e.kind == "call"]
+    byres = {}
+    for e in evs:
+        if e.res is not None:
+            byres[e.res] = e
+    stages = []
+    cur = util.ret_term(st)
+    src = None
+    for _ in range(12):
+        e = byres.get(cur)
+        if e is None:
+            return None
+        nm = e.extra.get("name")
+        if nm in ("map", "filter", "filter_map") and len(e.args) >= 2:
+            stages.append((nm, e.args[1]))
+            cur = e.args[0]
+        elif nm == "into_iter":
+            src = e.args[0]
+            break
+        else:
+            return None
+    if src is None or not stages:
+        return None
+    stages.reverse()
+    table = _decode_table(crate, src)
+    base = st.facts
+    states = [(st.fork(), ("agg", "tuple", (("named", "dx"), ("named", "dy"))))]
+    for kind, clo in stages:
+        nxt = []
+        for s_, el in states:
+            arg = ("ref", ("constval", el)) if kind == "filter" else el
+            r = I._apply_closure(s_, 0, clo, (arg,))
+            if r is None:
+                return None
+            for ns, v in r:
+                if kind == "map":
+                    nxt.append((ns, v))
+                elif kind == "filter":
+                    if v == mk_int(0):
+                        continue
+                    if v != mk_int(1):
+                        ns.add_fact(("eq", v, 1))
+                    nxt.append((ns, el))
+                else:
+                    if v == NONE or (v[0] == "agg" and isinstance(v[1], tuple) and len(v[1]) > 3 and v[1][3] == "None"):
+                        continue
+                    if v[0] == "agg" and isinstance(v[1], tuple) and len(v[1]) > 3 and v[1][3] == "Some":
+                        nxt.append((ns, v[2][0]))
+                    else:
+                        return None
+        states = nxt
+    outs = [(frozenset(ns.facts - base), el) for ns, el in states]
+    return table, outs, " -> ".join(["into_iter"] + [k for k, _ in stages])
+
+
+def _psym(t):
+    """render a pipeline term over dx, dy and the function's parameters n, m, i, j"""
+    t = _strip_cast(t)
+    if t[0] == "param":
+        return {1: "n", 2: "m", 3: "i", 4: "j"}.get(t[1], "?")
+    if t[0] == "named":
+        return t[1]
+    if t[0] == "int":
+        return str(t[1])
+    if t[0] == "bin" and t[1] == "Add":
+        return "+".join(sorted([_psym(t[2]), _psym(t[3])]))
+    return tstr(t)
+
+
+def _unref_const(a):
+    """&constval(v) -> v; &constval(aggregate).k -> its k-th component (a captured value read through the closure)"""
+    if not (isinstance(a, tuple) and a and a[0] == "ref"):
+        return a
+    pl = a[1]
+    path = []
+    while pl[0] == "field":
+        path.append(pl[2])
+        pl = pl[1]
+    if pl[0] != "constval":
+        return a
+    v = pl[1]
+    for k in reversed(path):
+        if isinstance(v, tuple) and v and v[0] == "agg" and k < len(v[2]):
+            v = v[2][k]
+        else:
+            return a
+    return v
+
+
+def _pconds(facts):
+    """the comparison facts of a kept path as a set of normalised (coordinate, bound) conditions"""
+    terms = []
+    for f in facts:
+        t_ = f[1]
+        if f[0] == "eq" and isinstance(t_, tuple) and t_ and t_[0] == "bin" and t_[1] in ("Lt", "Le", "Gt", "Ge"):
+            terms.append((t_, bool(f[2])))
+        if f[0] == "eq" and f[2] == 1 and isinstance(t_, tuple) and t_ and t_[0] == "call" and str(t_[1]).endswith("::contains"):
+            args_ = [x for x in t_[2] if not (isinstance(x, tuple) and x and x[0] == "mem")]
+            rg_, x_ = _unref_const(args_[0]), _unref_const(args_[1])
+            if rg_[0] == "agg" and str(rg_[1][1]).endswith("ops::Range"):
+                terms.append((("bin", "Ge", x_, rg_[2][0]), True))
+                terms.append((("bin", "Lt", x_, rg_[2][1]), True))
+            else:
+                terms.append((t_, True))
+    cs = set()
+    for (c, truth) in terms:
+        if c[0] != "bin":
+            cs.add((tstr(c), "?"))
+            continue
+        op = c[1] if truth else {"Lt": "Ge", "Le": "Gt", "Gt": "Le", "Ge": "Lt"}[c[1]]
+        a_, b_ = _psym(c[2]), _psym(c[3])
+        if op == "Ge" and b_ == "0":
+            cs.add((a_, ">=0"))
+        elif op == "Gt" and b_ == "-1":
+            cs.add((a_, ">=0"))
+        elif op == "Le" and a_ == "0":
+            cs.add((b_, ">=0"))
+        elif op == "Lt" and a_ == "-1":
+            cs.add((b_, ">=0"))
+        elif op == "Lt":
+            cs.add((a_, "<" + b_))
+        elif op == "Gt":
+            cs.add((b_, "<" + a_))
+        else:
+            cs.add((a_, op + b_))
+    return cs
+
+
+def _neighbours_semantic(col, crate, fn, table, b, fk):
+    """I4/I5 by evaluating the chain; False when the chain cannot be followed (the shape rules then decide)"""
+    try:
+        r = _neighbour_pipeline(crate, b)
+    except Exception:  # noqa: BLE001
+        r = None
+    if r is None:
+        return False
+    got, outs, desc = r
+    key = "%s|table" % fk(b)
+    if got == table and len(set(got)) == len(got):
+        col.ok("I4", b.loc(), key, "offsets %s in table order; %s" % (got, desc))
+    else:
+        col.violation("I4", key, b.loc(), "%s: the offset table is %s, documented order is %s" % (fn, got, table))
+    want = {("dx+i", ">=0"), ("dx+i", "<n"), ("dy+j", ">=0"), ("dy+j", "<m")}
+    key = "%s|four-sided-bounds" % fk(b)
+    conds = [_pconds(fs) for fs, _ in outs]
+    if len(outs) == 1 and conds[0] == want:
+        col.ok("I5", b.loc(), key, "an offset is kept exactly under 0 <= i+dx < n and 0 <= j+dy < m (chain %s evaluated on a symbolic offset)" % desc)
+    else:
+        col.violation("I5", key, b.loc(), "%s keeps an offset under %s; the in-bounds test must be exactly 0 <= i+dx < n and 0 <= j+dy < m (rows against n, columns against m)" % (fn, [sorted(c) for c in conds]))
+    key = "%s|yields" % fk(b)
+    okm = bool(outs)
+    for _, el in outs:
+        okm = okm and el[0] == "agg" and el[1] == "tuple" and len(el[2]) == 2 and [_psym(x) for x in el[2]] == ["dx+i", "dy+j"] and all(x[0] == "cast" and x[2] == "usize" for x in el[2])
+    if okm:
+        col.ok("I5", b.loc(), key, "((i+dx) as usize, (j+dy) as usize)")
+    else:
+        col.violation("I5", key, b.loc(), "%s must yield (i+dx, j+dy): yields %s" % (fn, [tstr(el)[:120] for _, el in outs]))
+    return True
+
+
 def check(col, prog, tier, profile, fixture=None):
     crate = prog.crate(fixture or "rlib_iter")
     fk = util.fkey
@@ -176,6 +365,8 @@ def check(col, prog, tier, profile, fixture=None):
     # ---------------- I4 / I5
     for fn, table in TABLES.items():
         b = util.need_body(crate, "neighbours::%s" % fn)
+        if _neighbours_semantic(col, crate, fn, table, b, fk):
+            continue
         I = util.analyse(b)
         st = I.final_states[0]
         evs = [e for e in st.event_list() if e.kind == "call"]
@@ -355,7 +546,7 @@ def check(col, prog, tier, profile, fixture=None):
     _next_permutation_anatomy(col, crate)
     nb = util.need_body(crate, "<permutations::PermutationIter<T> as std::iter::Iterator>::next")
     npb = util.need_body(crate, "permutations::next_permutation")
-    I = util.analyse(nb)
+    I = util.analyse(nb, features=("comb", "fncall"))  # `cond.then(|| ..)` / Option combinators are case splits
     adt = util.need_adt(crate, "PermutationIter")
     fn_ = [f["name"] for f in util.fields_of(adt)]
     FIRST, DATA = fn_.index(FLAG0[0][0]), fn_.index("data")
@@ -438,6 +629,27 @@ def _next_permutation_anatomy(col, crate):
     def at(idx, t):
         return _sm(_cc(t)) == _sm(_cc(("ref", ("index", datap, idx))))
 
+
+    def less(facts, xi, yi):
+        """the facts say data[xi] < data[yi] (strictly), in any of the four spellings of the comparison"""
+        for f in facts:
+            t = f[1]
+            if not (f[0] == "eq" and isinstance(t, tuple) and t and t[0] == "call" and len(t[2]) >= 2):
+                continue
+            nm = str(t[1]).rsplit("::", 1)[-1]
+            if "PartialOrd" not in str(t[1]) and "Ord" not in str(t[1]):
+                continue
+            a0, a1 = t[2][0], t[2][1]
+            if nm == "lt" and f[2] == 1 and at(xi, a0) and at(yi, a1):
+                return True
+            if nm == "gt" and f[2] == 1 and at(yi, a0) and at(xi, a1):
+                return True
+            if nm == "ge" and f[2] == 0 and at(xi, a0) and at(yi, a1):
+                return True
+            if nm == "le" and f[2] == 0 and at(yi, a0) and at(xi, a1):
+                return True
+        return False
+
     ok_wrap = ok_swap = ok_scan = ok_outer = False
     why = []
     for st in I.final_states:
@@ -452,6 +664,9 @@ def _next_permutation_anatomy(col, crate):
             continue
         if ret != mk_int(1) or len(sw) != 1 or len(rv) != 1:
             why.append("a stepping path must do exactly one swap and one tail reversal and return true")
+            continue
+        if len(sw[0].args) < 3:
+            why.append("the exchange is not the slice swap(i, j) of two positions (%s)" % str(sw[0])[:120])
             continue
         i_t = sw[0].args[1]
         j_t = sw[0].args[2]
@@ -473,7 +688,7 @@ def _next_permutation_anatomy(col, crate):
           i_el = i_t[2]
           ok_outer = i_el[2] == mk_int(1) and i_el[3] == LEN and any(isinstance(v, tuple) and v and v[0] == "rangeiter" and v[3] == "rev" for v in st.env.values())
         if not by_find:
-            asc = any(f[0] == "eq" and f[2] == 1 and isinstance(f[1], tuple) and f[1][0] == "call" and str(f[1][1]).endswith("PartialOrd::lt") and at(i_t, f[1][2][0]) and at(i_el, f[1][2][1]) for f in st.facts)
+            asc = less(st.facts, i_t, i_el)
             tail = rv[0].args[0]
             tail_ok = tail[0] == "ref" and tail[1][0] == "range" and tail[1][1] == datap and tail[1][2][0] == "agg" and tail[1][2][1][1].endswith("RangeFrom") and tail[1][2][2] == (i_el,)
             ok_swap = asc and tail_ok and evs.index(sw[0]) < evs.index(rv[0])
@@ -487,8 +702,8 @@ def _next_permutation_anatomy(col, crate):
             step_ok = False
             for bs in I.backedge_states.get(head, []):
                 nj = bs.env.get(jl)
-                gt = any(f[0] == "eq" and f[2] == 1 and isinstance(f[1], tuple) and f[1][0] == "call" and str(f[1][1]).endswith("PartialOrd::gt") and at(("bin", "Add", j_t, mk_int(1)), f[1][2][0]) and at(i_t, f[1][2][1]) for f in bs.facts)
-                lt_rev = any(f[0] == "eq" and f[2] == 1 and isinstance(f[1], tuple) and f[1][0] == "call" and str(f[1][1]).endswith("PartialOrd::lt") and at(i_t, f[1][2][0]) and at(("bin", "Add", j_t, mk_int(1)), f[1][2][1]) for f in bs.facts)
+                gt = less(bs.facts, i_t, ("bin", "Add", j_t, mk_int(1)))
+                lt_rev = False
                 inb = any(f[0] == "eq" and f[2] == 1 and _sm(_cc(f[1])) == _sm(_cc(("bin", "Lt", ("bin", "Add", j_t, mk_int(1)), LEN))) for f in bs.facts)
                 step_ok = nj == ("bin", "Add", j_t, mk_int(1)) and (gt or lt_rev) and inb
             ok_scan = scan_from_i and step_ok
